@@ -2,6 +2,7 @@ import TFV.Drv.Core
 import TFV.Drv.Net
 import TFV.Drv.Ops2
 import TFV.Drv.Tree
+import TFV.Drv.Bench
 open Lean
 namespace Drv
 def dispatch (op : String) (j : Json) : R Json := do
@@ -9,5 +10,6 @@ def dispatch (op : String) (j : Json) : R Json := do
   if let some r ← dispatchNet op j then return r
   if let some r ← dispatchOps2 op j then return r
   if let some r ← dispatchTree op j then return r
+  if let some r ← dispatchBench op j then return r
   throw s!"unknown op {op}"
 end Drv
